@@ -17,7 +17,9 @@ type Cfg struct {
 	BigEnd   bool   `json:"big_endian"` // WAL checksum byte order
 }
 
-func (c Cfg) String() string { return fmt.Sprintf("ps%d/sector%d/be%v", c.PageSize, c.Sector, c.BigEnd) }
+func (c Cfg) String() string {
+	return fmt.Sprintf("ps%d/sector%d/be%v", c.PageSize, c.Sector, c.BigEnd)
+}
 
 func (c Cfg) layout() sim.Layout { return sim.L0(c.PageSize) }
 
